@@ -45,6 +45,7 @@ fn eval_line(ctx: &Ctx, line: &str) -> String {
             "st" => stat::eval(*ctxp, &opn, &a),
             "pn" => c17::eval(*ctxp, &opn, &a),
             "ct" => create::eval_bytes(*ctxp, &a),
+            "hist" => if opn == "hist.arr" { c19::eval_hist(&a) } else { stat::eval_hist(&a) },
             p @ ("c01" | "c02" | "c08" | "c09" | "c10" | "c11" | "c12") => {
                 let _ = p;
                 if opn.ends_with(".mem") { create::eval_mem(&a) }
